@@ -192,7 +192,9 @@ impl Response {
         {
             let mut body: Vec<u8> = Vec::new();
 
-            while let Some(chunk) = parse_chunk(&mut reader) {
+            // A chunk that cannot be read or parsed makes the whole response invalid: treating it as the
+            //   end of the body would pass a truncated body off as a complete response
+            while let Some(chunk) = parse_chunk(&mut reader)? {
                 body.extend(chunk);
             }
 
@@ -270,34 +272,45 @@ impl From<Response> for Vec<u8> {
 }
 
 /// Parses a chunk using the chunked transfer encoding.
-fn parse_chunk<T>(stream: &mut BufReader<T>) -> Option<Vec<u8>>
+/// Reads one chunk of a chunked body. Returns `Ok(None)` for the final (zero-length) chunk.
+fn parse_chunk<T>(stream: &mut BufReader<T>) -> Result<Option<Vec<u8>>, ResponseError>
 where
     T: Read,
 {
     let mut length_line_buf: Vec<u8> = Vec::new();
-    stream.read_until(0xA, &mut length_line_buf).ok()?;
-    let length: usize =
-        usize::from_str_radix(std::str::from_utf8(&length_line_buf).ok()?.trim_end(), 16).ok()?;
+    stream
+        .read_until(0xA, &mut length_line_buf)
+        .map_err(|_| ResponseError::Stream)?;
+    let length: usize = usize::from_str_radix(
+        std::str::from_utf8(&length_line_buf)
+            .map_err(|_| ResponseError::Response)?
+            .trim_end(),
+        16,
+    )
+    .map_err(|_| ResponseError::Response)?;
 
     if length == 0 {
-        stream.read_exact(&mut [0u8, 0]).ok()?;
-        None
+        stream
+            .read_exact(&mut [0u8, 0])
+            .map_err(|_| ResponseError::Stream)?;
+        Ok(None)
     } else {
         let mut content_buf: Vec<u8> = Vec::new();
         stream
             .by_ref()
             .take(length as u64)
             .read_to_end(&mut content_buf)
-            .ok()?;
+            .map_err(|_| ResponseError::Stream)?;
         if content_buf.len() != length {
-            return None;
+            return Err(ResponseError::Stream);
         }
-        stream.read_exact(&mut [0u8, 0]).ok()?;
-        Some(content_buf)
+        stream
+            .read_exact(&mut [0u8, 0])
+            .map_err(|_| ResponseError::Stream)?;
+        Ok(Some(content_buf))
     }
 }
 
-/// Asserts that the condition is true, returning a `Result`.
 fn safe_assert(condition: bool) -> Result<(), ResponseError> {
     match condition {
         true => Ok(()),
